@@ -83,6 +83,38 @@ def scenario(tier):
     return fn
 
 
+def long_chain(b, sym):
+    """a history with 10-11 generations: a damaged manifest of ANY generation (also the two-digit ones) is refused"""
+    b.mkfile("R/a.txt", 1)
+    b.mkfile("R/d/b.txt", 2)
+    nested = sym.flag("nested")
+    hist = "R/d" if nested else "R"
+    if nested:
+        r = b.run("create", root="R/d", h=["md5"])
+    n = sym.choose("generations", [10, 11])
+    for g in range(n):
+        r = b.run("create", root="R", h=["md5"]) if g % 2 == 0 else b.run("create", root="R", h=["md5"], sf=["R/d/b.txt"])
+        b.require(r.exit == 0, "setup-create", str(r))
+    names = b.manifest_names(hist)
+    name = sym.choose("generation", [names[0], names[8], names[9], names[-1]])
+    kind = sym.choose("kind", ["modify", "remove-manifest"])
+    target = posixpath.join(hist, "ascmhl", name)
+    if kind == "modify":
+        b.alter(target, sym.choose("edit_kind", [1, 2]))
+        exp, exc = 31, "ModifiedMHLManifestFileException"
+    else:
+        b.delete(target)
+        exp, exc = 33, "MissingMHLManifestException"
+    cmd = sym.choose("command", ["verify", "create", "info", "diff"])
+    before = b.snapshot("")
+    r = {"verify": lambda: b.run("verify", root="R"), "create": lambda: b.run("create", root="R", h=["md5"]),
+         "info": lambda: b.run("info", root="R"), "diff": lambda: b.run("diff", root="R")}[cmd]()
+    ctx = "generation %s of %s (%d generations) %s; %s -> exit %s exc %s" % (name[:4], hist, len(names), kind, cmd, r.exit, r.exc)
+    b.require(r.exit == exp and r.exc == exc, "refused-with-dedicated-code", "expected %d: %s" % (exp, ctx))
+    after = b.snapshot("")
+    b.require(sorted(before) == sorted(after) and all(truth(b.same_node(before[p], after[p])) for p in before), "tree-unchanged", ctx)
+
+
 LEVEL_NOTE = ("'Every byte position and kind of edit' is covered compositionally: C01 shows the digest input is the whole byte range for "
               "every length, so any edit yields a different content id, and collision-freeness gives a different c4.")
 
@@ -94,4 +126,7 @@ def harnesses(tier):
                     bounds={"layouts": LAYOUTS, "root generations": "1-2 (quick) / 1-3 (thorough)", "commands": COMMANDS,
                             "tamper": "7 kinds of byte edit (model: content id differs) | manifest removed | chain removed"},
                     outside=["edits that keep the bytes identical", "manifests present in the folder but not listed in the chain",
-                             "info -sf without explicit root (consults only the nearest enclosing history)", "two simultaneous tampers"])]
+                             "info -sf without explicit root (consults only the nearest enclosing history)", "two simultaneous tampers"]),
+            Harness("c05-long-chain", long_chain, frontier=4, budget_s=900,
+                    what="flat / nested history with 10-11 generations; generation 1, 9, 10 or the last one modified or removed; verify / create / info / diff",
+                    bounds={"generations": "10-11"}, outside=[])]
